@@ -11,6 +11,10 @@ for mp in sorted(glob.glob(os.path.join(HERE, "seeded", "*", "meta.json"))):
         if r.get("first_keys"):
             first = r["first_keys"][0].replace("key=", "").split(" cases=")[0]
             break
+    rc = m.get("reconfirmed") or {}
+    caught_now = [c for c in rc.get("caught_by", []) if ":" not in c]
+    if rc:
+        m["caught_by"] = sorted(set(m.get("caught_by", [])) | set(caught_now)) if rc.get("status") == "CAUGHT" else m.get("caught_by", [])
     rows.append((m["id"], m.get("property"), (m.get("summary") or "").replace("\n", " ").replace("|", "/")[:260],
                  (m.get("needs_to_manifest") or "").replace("\n", " ").replace("|", "/")[:220], ", ".join(m.get("caught_by", [])) or "-", ran, first.replace("|", "/")[:150]))
 with open(os.path.join(HERE, "SEEDED.md"), "w") as f:
